@@ -33,7 +33,7 @@ REQUIRED_COUNTERS = ('backups', 'incremental_backups', 'recoveries_compared', 'v
 
 
 def shards(tier, seed):
-    return split(tier, seed, 2400, 40000, 45, 900)
+    return split(tier, seed, 6000, 200000, 45, 900)
 
 
 def quiet(f, *a):
